@@ -237,3 +237,65 @@ M("C14", "from-file-reuses-cached-config", "beacon.py", "", "", "C14.R3", edits=
      "            bconfig = cls(grconfig.unmasked_beacon_config)\n"
      "            bconfig = _PARSED_CONFIGS.setdefault(grconfig.unmasked_beacon_config, bconfig)\n            bconfig.guardrails = grconfig\n"),
 ])
+
+# ================================================================================================ R7: published views are final
+# (seeded C14e publishes the proxies of two empty mappings into the slots and fills the mappings afterwards by item stores
+# in an inlined helper; the mutants below are other changes of that kind, the twins other orders that are harmless)
+_MAP_NEW = "        settings = OrderedDict()\n        for setting in self.settings_tuple:\n"
+M("C14", "view-published-then-filled-by-update", "beacon.py", _V_SET,
+  "        if self._settings is None:\n            mapping = OrderedDict()\n"
+  "            self._settings = MappingProxyType(mapping)\n"
+  "            mapping.update(self.settings_map(index_type=\"name\", pretty=True))\n        return self._settings\n", "C14.R7")
+M("C14", "view-published-then-filled-by-method", "beacon.py", "", "", "C14.R7", edits=[
+    ("beacon.py", _MAP_HEAD, "    def _fill(self, mapping, **kw):\n        for key, val in self.settings_map(**kw).items():\n"
+                             "            mapping[key] = val\n\n" + _MAP_HEAD),
+    ("beacon.py", _V_RAW, "        if self._raw_settings is None:\n            mapping = {}\n"
+                          "            self._raw_settings = MappingProxyType(mapping)\n"
+                          "            self._fill(mapping, index_type=\"name\")\n        return self._raw_settings\n"),
+])
+M("C14", "view-slot-placeholder-then-rebound", "beacon.py", _V_SETI,
+  "        if self._settings_by_index is None:\n            self._settings_by_index = MappingProxyType({})\n"
+  "            self._settings_by_index = self.settings_map(index_type=\"const\", pretty=True)\n"
+  "        return self._settings_by_index\n", "C14.R7")
+M("C14", "map-proxy-stored-in-slot-before-fill", "beacon.py", "", "", "C14.R7", edits=[
+    ("beacon.py", _MAP_NEW, "        settings = OrderedDict()\n        self._raw_settings_by_index = view = MappingProxyType(settings)\n"
+                            "        for setting in self.settings_tuple:\n"),
+    ("beacon.py", _MAP_RET, "            settings[key] = val\n        return view\n"),
+])
+M("C14", "map-proxy-wraps-mapping-kept-and-edited", "beacon.py", "", "", "C14.R7", edits=[
+    ("beacon.py", "        self._raw_settings: Optional[Mapping[str, Any]] = None\n",
+     "        self._raw_settings: Optional[Mapping[str, Any]] = None\n        self._last_map = OrderedDict()\n"),
+    ("beacon.py", _MAP_RET, "            settings[key] = val\n        self._last_map.clear()\n        self._last_map.update(settings)\n"
+                            "        return MappingProxyType(self._last_map)\n"),
+])
+T("C14", "twin-map-proxy-built-before-fill", "beacon.py", "", "", edits=[
+    ("beacon.py", _MAP_NEW, "        settings = OrderedDict()\n        view = MappingProxyType(settings)\n        for setting in self.settings_tuple:\n"),
+    ("beacon.py", _MAP_RET, "            settings[key] = val\n        return view\n"),
+])
+T("C14", "twin-map-proxy-via-helper-with-options", "beacon.py", "", "", edits=[
+    ("beacon.py", _MAP_RET, "            settings[key] = val\n        return _read_only(settings, strict=True)\n"),
+    ("beacon.py", "class BeaconConfig:\n", "def _read_only(mapping, **options):\n    return MappingProxyType(mapping)\n\n\nclass BeaconConfig:\n"),
+])
+T("C14", "twin-map-filled-through-alias-then-wrapped", "beacon.py", _MAP_RET,
+  "            settings[key] = val\n        ordered = OrderedDict()\n        target = ordered\n        target.update(settings)\n"
+  "        return MappingProxyType(ordered)\n")
+_T_via_c02("C14", "twin-view-fresh-mapping-per-round", "beacon.py", _V_SET,
+           "        if self._settings is None:\n            for pretty in (True,):\n                mapping = OrderedDict()\n"
+           "                mapping.update(self.settings_map(index_type=\"name\", pretty=pretty))\n"
+           "                self._settings = MappingProxyType(mapping)\n        return self._settings\n")
+# the refactoring seeded/C14e pretends to be, done in the harmless order: both mappings are filled first, the proxies are
+# stored in the slots last (the helper is inlined by the normaliser)
+_ONE_PASS = (
+    "    def _cache_views(self, pretty):\n        by_name = OrderedDict()\n        by_index = OrderedDict()\n"
+    "        for index, val in self.settings_map(index_type=\"enum\", pretty=pretty).items():\n"
+    "            by_name[index.name or str(index).replace(\".\", \"_\")] = val\n            by_index[index.value] = val\n"
+    "        if pretty:\n            self._settings, self._settings_by_index = MappingProxyType(by_name), MappingProxyType(by_index)\n"
+    "        else:\n            self._raw_settings, self._raw_settings_by_index = MappingProxyType(by_name), MappingProxyType(by_index)\n\n"
+)
+_T_via_c02("C14", "twin-views-filled-in-one-pass-published-last", "beacon.py", "", "", edits=[
+    ("beacon.py", _MAP_HEAD, _ONE_PASS + _MAP_HEAD),
+    ("beacon.py", _V_RAW, "        if self._raw_settings is None:\n            self._cache_views(False)\n        return self._raw_settings\n"),
+    ("beacon.py", _V_RAWI, "        if self._raw_settings_by_index is None:\n            self._cache_views(False)\n        return self._raw_settings_by_index\n"),
+    ("beacon.py", _V_SET, "        if self._settings is None:\n            self._cache_views(True)\n        return self._settings\n"),
+    ("beacon.py", _V_SETI, "        if self._settings_by_index is None:\n            self._cache_views(True)\n        return self._settings_by_index\n"),
+])
